@@ -540,6 +540,61 @@ def judge_pw_cases_given(ctx, cases, runs, suite):
     return res
 
 
+def run_pw_streams(args):
+    """The stream-level entry point for ONE stream holding this profile (orientation taken from the stream's temperatures)."""
+    pts, hot, eps = args
+    import warnings
+    warnings.filterwarnings("ignore")
+    from OpenPinch.lib.schema import NonLinearStream
+    from OpenPinch.utils.stream_linearisation import get_piecewise_linearisation_for_streams
+    t0 = time.time()
+    ts = [p[1] for p in pts]
+    hi, lo = max(ts), min(ts)
+    st = NonLinearStream(t_supply=hi if hot else lo, t_target=lo if hot else hi, p_supply=101.0, p_target=101.0,
+                         h_supply=pts[0][0], h_target=pts[-1][0], composition=[("water", 1.0)])
+    try:
+        out = get_piecewise_linearisation_for_streams([st], [[list(p) for p in pts]], dt_diff_max=eps)["t_h_points"]
+        return [(float(a), float(b)) for a, b in out], None, time.time() - t0
+    except Exception as e:  # noqa: BLE001
+        return None, f"{type(e).__name__}: {e}", time.time() - t0
+
+
+def pw_streams_suite(ctx):
+    """get_piecewise_linearisation_for_streams on one stream must give what get_piecewise_data_points gives for that profile, orientation
+    and tolerance (tolerances on both sides of the default 0.1), and is judged by the model like any other answer."""
+    n = ctx.budget(30, 400)
+    cases, tries = [], 0
+    while len(cases) < n and tries < 60 * n:
+        tries += 1
+        kind, pts = gen_curve(ctx.rng, ["mono", "plateau", "steps", "convex", "concave", "scurve"], nmax=120)
+        if max(p[1] for p in pts) == min(p[1] for p in pts):
+            continue                      # orientation of a flat profile is not defined by its temperatures
+        eps = ctx.rng.choice([1 / 128, 0.01, 0.02, 0.05, 0.1, 0.25, 0.5, 1.0, 2.0])
+        hot = ctx.rng.random() < 0.5
+        o, e = run_rdp(pts, eps)
+        if e is not None or len(o) > 10:
+            continue                      # fast path only
+        cases.append((pts, hot, eps))
+    direct = [run_pw(c) for c in cases]
+    runs = [run_pw_streams(c) for c in cases]
+    judged = judge_pw_cases_given(ctx, cases, runs, "pw_streams")
+    agree = bad = 0
+    for (pts, hot, eps), (od, ed, _), (o, e, _), j in zip(cases, direct, runs, judged):
+        ctx.evaluations += 1
+        ctx.count("pw_streams")
+        ctx.nontrivial_case(("pw_streams", tuple(pts), hot, eps))
+        if (o, e) == (od, ed):
+            agree += 1
+            continue
+        bad += 1
+        if bad == 1:
+            ctx.fail("pw-streams-differs", "get_piecewise_linearisation_for_streams([one stream]) does not return what get_piecewise_data_points "
+                     f"returns for the same profile, orientation and tolerance {eps}", input=dict(curve=pts, hot=hot, eps=eps),
+                     impl_output=dict(stream_level=o if e is None else e, direct=od if ed is None else ed), suite="pw_streams", verdict=j[0],
+                     predicate="same answer as get_piecewise_data_points; judge_pw on the answer")
+    ctx.suite("pw_streams", cases=len(cases), agree=agree, mismatch=0, property_false=bad, fragile_skipped=0)
+
+
 D16_CURVE = [(float(i), 4e-7 * i * i) for i in range(501)]
 CORPUS_CLEAN = [
     D16_CURVE,                                                            # D16 (open finding): 2 points kept, deviation 0.0249
@@ -612,6 +667,7 @@ def run(ctx):
     rdp_suite(ctx)
     pw_suite(ctx)
     pw_history_suite(ctx)
+    pw_streams_suite(ctx)
     clean_suite(ctx)
 
 
